@@ -14,3 +14,6 @@ pub mod vec_eng;
 pub mod str_eng;
 pub mod coll_eng;
 pub mod c19;
+pub mod c16;
+pub mod box_eng;
+pub mod c18;
